@@ -1315,6 +1315,7 @@ class Session:
             "nontrivial": nontrivial,
             "distinct_key": digest([self.world, self.executed, self.sched.signature()]),
             "sched_key": self.sched.signature(),
+            "sched_decisions": self.sched.decisions if len(self.sched.decisions) <= 20000 else None,
             "steps": len(self.executed),
             "skipped": 0,
             "sim_time": self.log.seq + len(self.sched.decisions),
